@@ -588,6 +588,7 @@ where
                                 invert: false,
                                 unicode_icase: self.flags.unicode && self.flags.icase,
                             });
+                            quantifier_allowed = false;
                         }
                         // Term :: Assertion :: \B
                         'B' => {
@@ -596,6 +597,7 @@ where
                                 invert: true,
                                 unicode_icase: self.flags.unicode && self.flags.icase,
                             });
+                            quantifier_allowed = false;
                         }
                         // Term :: Atom :: \ AtomEscape :: CharacterEscape :: c AsciiLetter
                         // Term :: ExtendedAtom :: \ [lookahead = c]
